@@ -283,6 +283,15 @@ impl Hist {
                 self.w.arm(None);
                 if r.is_ok() { "ok".into() } else { "err".into() }
             }
+            // `mint <user> <coins>`: the chain hands a user new tokens (bank module, outside any contract): how an account
+            // comes to hold amounts near the top of u128 — the contracts must cope with them or refuse
+            "mint" => {
+                let to = t.s().to_string();
+                let cs = self.w.real_coins(&t.coins());
+                let r = self.w.app.sudo(cw_multi_test::SudoMsg::Bank(cw_multi_test::BankSudo::Mint { to_address: self.w.a(&to).to_string(), amount: cs }));
+                self.w.arm(None);
+                if r.is_ok() { "ok".into() } else { "err".into() }
+            }
             "advance" => { let ns = t.u64(); self.w.advance(ns); "ok".into() }
             "fault" => { self.pending_fault = Some(t.u64()); "ok".into() }
             // (a contract query that panics must not take the harness down: the snapshot then differs from the model's)
